@@ -3,6 +3,7 @@
 property still holds (twins of seeded changes: the same shape of edit, made so that behaviour is kept).  Each is applied to a scratch
 worktree of /repo HEAD (outside /repo and /verif, removed afterwards), the test suite is run, and all 20 checks (--own: only the check
 named by the first three letters) must exit 0 on it.  Prints every check that reports a violation or an analysis error."""
+import json
 import os
 import shutil
 import subprocess
@@ -42,7 +43,14 @@ def main():
     bad = 0
     with ThreadPoolExecutor(6) as ex:
         for name, st, res in ex.map(lambda s: one(s, own), names):
-            loud = sorted(c for c, rc in res.items() if rc)
+            exc = {}
+            ef = os.path.join(VERIF, 'benign', name, 'EXCEPT.json')
+            if os.path.exists(ef):
+                exc = json.load(open(ef))      # check -> why the change is NOT benign for that property
+            loud = sorted(c for c, rc in res.items() if rc and c not in exc)
+            for c in sorted(exc):
+                if res.get(c) == 0:
+                    print('note', name, c, 'is listed in EXCEPT.json but silent')
             if st != 'ok' or loud:
                 bad += 1
                 print('ALARM-ON-BENIGN', name, st, dict((c, res[c]) for c in loud))
